@@ -46,6 +46,12 @@ var capMatchers = []pipe.MatcherSpec{
 	{Kind: "dissect", Pattern: `id=%{file}:%{n} %{?skip}=%{rest}`},
 	{Kind: "dissect", Pattern: `key=%{key} `},
 	{Kind: "dissect", Pattern: `KEY=%{k} VAL=%{v}`, IgnoreCase: true},
+	// delimiters whose first byte repeats, on lines that carry one more of that byte just before them (key=aab, key=abbcd):
+	// the leftmost occurrence starts inside a failed partial match
+	{Kind: "dissect", Pattern: `key=%{pre}ab%{post} `, IgnoreCase: true},
+	{Kind: "dissect", Pattern: `KEY=%{pre}BC%{post}`, IgnoreCase: true},
+	{Kind: "dissect", Pattern: `key=%{pre}ab%{post} `},
+	{Kind: "dissect", Pattern: `=%{pre}bc%{post}=%{more}`},
 	{Kind: "none"},
 }
 
@@ -142,7 +148,7 @@ func genDissectPool(r *run.Rand) *pipe.Workload {
 func gen(cs Case) *pipe.Workload {
 	r := run.NewRand(cs.Seed, "C02", cs.Kind, cs.Index)
 	thorough := cs.Tier == "thorough"
-	o := pipe.GenOpts{MaxInputs: 8, MaxLines: 2500, LongLines: true}
+	o := pipe.GenOpts{MaxInputs: 8, MaxLines: 2500, LongLines: true, Gunzip: true}
 	switch cs.Kind {
 	case "captures", "cli", "cli-color":
 		return genCaptures(r, false, thorough, 0)
